@@ -138,6 +138,44 @@ def main(pid, tier, seed):
                     hist = ptq.run_history(pcfg, cuts, with_queue=False)
                     add(pcfg, hist, False, None, dict(m, cuts=cuts))
 
+    # ---- C08 through the real CrackingSession loop, save file and pcfg_guesser.load_save ----
+    n_session_hist = 0
+    if pid == 'C08':
+        from . import session
+        pick = [g for gi, g in enumerate(grammars) if gi % (9 if tier == 'quick' else 3) == 0]
+        for gi, g in enumerate(pick):
+            d = os.path.join(work, 'sg%d' % gi)
+            ptq.ruleset_from_int_grammar(g, d, seed=gi)
+            nn = ptq.n_nodes(ptq.sizes_of(ptq.load_pcfg(d)))
+            for cuts in ([[rng.randrange(nn)], [rng.randrange(nn), rng.randrange(nn)]] if nn > 1 else [[0]]):
+                fn = os.path.join(d, 'sess.sav')
+                if os.path.exists(fn):
+                    os.remove(fn)
+                sessions = []
+                exhausted = False
+                for si in range(len(cuts) + 1):
+                    pcfg = ptq.load_pcfg(d, save_file=fn)
+                    cut = cuts[si] if si < len(cuts) else None
+                    if si == 0:
+                        r = session.run_session(pcfg, session.new_save_config(), fn, quit_at_pt=cut)
+                        saved = None
+                    else:
+                        cfg, info = session.load_save(fn)
+                        saved = cfg.getfloat('guessing_info', 'max_probability')
+                        r = session.run_session(pcfg, cfg, fn, load=True, quit_at_pt=cut)
+                    items = r['popped']
+                    guessed = items[:-1] if (r['quit'] and items) else items
+                    sessions.append({'saved': saved, 'ev': [(it, None) for it in guessed], 'quit': None, 'restored': None})
+                    if not r['quit']:
+                        exhausted = True
+                        break
+                if not exhausted:
+                    continue
+                last = ptq.load_pcfg(d)
+                add(last, {'sessions': sessions, 'exhausted': True}, True, None,
+                    {'kind': 'int_grammar via CrackingSession.run + .sav file', 'grammar': g, 'cuts': cuts})
+                n_session_hist += 1
+
     # ---- shipped ruleset prefix (order / reported probability only; node space not tabulated) ----
     extra_prefix = 0
     if pid == 'C01':
@@ -158,6 +196,33 @@ def main(pid, tier, seed):
         seqs = second_run([j for _, j in det_jobs])
         for (p, _), s2 in zip(det_jobs, seqs):
             p['ev2'] = s2
+
+    # ---- C08: a session is refused when the ruleset's UUID differs from the saved one (real command line) ----
+    uuid_result = None
+    if pid == 'C08':
+        from . import session, rulesets
+        rcopy = core.repo_copy('cli')
+        d = os.path.join(rcopy, 'Rules', 'uu')
+        ptq.ruleset_from_int_grammar(grammars[len(grammars) // 2], d, seed=1)
+        out0, _, _ = session.cli(rcopy, 'pcfg_guesser.py', ['-r', 'uu', '-s', 'u1'], stdin='open')
+        full = session.stdout_lines(out0)
+        session.cli(rcopy, 'pcfg_guesser.py', ['-r', 'uu', '-s', 'u2', '-n', '1'], stdin='open')
+        same, _, _ = session.cli(rcopy, 'pcfg_guesser.py', ['-r', 'uu', '-s', 'u2', '--load'], stdin='open')
+        cfgp = os.path.join(d, 'config.ini')
+        txt = open(cfgp).read().replace('00000000-0000-0000-0000-000000000001', '99999999-0000-0000-0000-000000000009')
+        open(cfgp, 'w').write(txt)
+        other, err, _ = session.cli(rcopy, 'pcfg_guesser.py', ['-r', 'uu', '-s', 'u2', '--load'], stdin='open')
+        uuid_result = {'same_uuid_resumes': session.stdout_lines(same) == full, 'other_uuid_lines': len(session.stdout_lines(other)),
+                       'refusal_message': 'UUID' in err.decode('utf-8', 'replace')}
+        # judged by TLC as stream equalities (TrLoader kind "lines"): the refused session writes nothing, the matching one resumes
+        enc = lambda ls: [[ord(c) for c in x] for x in ls]
+        uv, _ = core.validate_traces('TrLoader.tla', [
+            {'tid': 1, 'kind': 'lines', 'lines': enc(session.stdout_lines(other)), 'ref': []},
+            {'tid': 2, 'kind': 'lines', 'lines': enc(session.stdout_lines(same)), 'ref': enc(full)}], timeout=120)
+        if uv[1][0] != 'ACCEPT':
+            verdict.violation(dict(uuid_result, clause='C08_uuid_refusal'), 'a session whose saved UUID differs from the ruleset was not refused: %s' % uuid_result)
+        if uv[2][0] != 'ACCEPT':
+            verdict.violation(dict(uuid_result, clause='C08_uuid_match_resumes'), 'a session with the matching UUID did not resume: %s' % uuid_result)
 
     # ---- verdict: P-layer trace validation ----
     verdicts, st = core.validate_traces('TrPTQ.tla', ptraces)
@@ -187,7 +252,7 @@ def main(pid, tier, seed):
                 'non-trivial = more than one emission; distinct by emitted node/rank sequence',
         'int_grammars_from_spec': n_int, 'float_rulesets': n_float,
         'shipped_ruleset_prefix_pops': extra_prefix,
-        'determinism_pairs': len(det_jobs),
+        'determinism_pairs': len(det_jobs), 'session_level_histories': n_session_hist, 'uuid_refusal': uuid_result,
         'trace_validation': st,
         'impl_conformance': {'traces': len(itraces), 'states': ist.get('states', 0),
                              'result': 'drift' if drift else 'conforms', 'drift_examples': drift[:3]},
